@@ -148,6 +148,141 @@ fn main() {{}}
     return gen, obls, log
 
 
+
+VALUE = "compiler/src/ast/value.rs"
+
+SPEC2 = r"""
+use vstd::prelude::*;
+verus! {
+pub struct VErr;
+#[verifier::external_body] pub struct NumV { x: usize }              // Number (a numeric literal)
+#[verifier::external_body] pub struct OtherV { x: usize }
+#[verifier::external_body] pub struct ListV { x: usize }
+#[verifier::external_body] pub struct TextV { x: usize }             // String
+pub enum AstString { Plain(TextV), Other(OtherV) }
+pub enum Value { Function(OtherV), Ident(OtherV), Number(NumV), String(AstString), MathExpr(Box<ExprV>), Boolean(bool), List(ListV), Map(OtherV) }
+pub enum ExprV { Nil, Value(Value), Other(OtherV) }
+pub enum ConstexprEvaluation { Owned(Value), Impossible }
+impl ConstexprEvaluation {
+    pub fn is_impossible(&self) -> (r: bool) ensures r == (self is Impossible) { match self { ConstexprEvaluation::Impossible => true, _ => false } }
+    pub fn as_ref(&self) -> (r: Option<&Value>) ensures self is Impossible ==> r is None, self is Owned ==> r == Some(&self->Owned_0) { match self { ConstexprEvaluation::Owned(v) => Some(v), _ => None } }
+}
+pub fn opt_unwrap<'a>(o: Option<&'a Value>) -> (r: &'a Value) requires o is Some ensures Some(r) == o { o.unwrap() }
+// the folds this one hands on to (each its own obligations): of an expression, of a numeric literal, of a list literal
+pub uninterp spec fn folded(e: &ExprV) -> Result<ConstexprEvaluation, VErr>;
+pub uninterp spec fn num_folded(n: &NumV) -> Result<ConstexprEvaluation, VErr>;
+pub uninterp spec fn list_folded(l: &ListV) -> Result<ConstexprEvaluation, VErr>;
+impl ExprV { #[verifier::external_body] pub fn try_constexpr_eval(&self) -> (r: Result<ConstexprEvaluation, VErr>) ensures r == folded(self) { unimplemented!() } }
+impl NumV { #[verifier::external_body] pub fn try_constexpr_eval(&self) -> (r: Result<ConstexprEvaluation, VErr>) ensures r == num_folded(self) { unimplemented!() } }
+impl ListV { #[verifier::external_body] pub fn try_constexpr_eval(&self) -> (r: Result<ConstexprEvaluation, VErr>) ensures r == list_folded(self) { unimplemented!() } }
+impl AstString { #[verifier::external_body] pub fn clone(&self) -> (r: AstString) ensures r == *self { unimplemented!() } }
+impl TextV { #[verifier::external_body] pub fn clone(&self) -> (r: TextV) ensures r == *self { unimplemented!() } }
+// Value::nil(): the literal `nil`
+pub open spec fn nil_value() -> Value { Value::MathExpr(Box::new(ExprV::Nil)) }
+pub fn value_nil() -> (r: Value) ensures r == nil_value() { Value::MathExpr(Box::new(ExprV::Nil)) }
+pub open spec fn ok(c: ConstexprEvaluation) -> Result<ConstexprEvaluation, VErr> { Ok(c) }
+"""
+
+IMPOSSIBLE_ARMS = [("Self :: ReferenceToSelf { .. }", "self"), ("Self :: ReferenceToConstructor ( .. )", "constructor"), ("Self :: Callable { .. }", "call"),
+                   ("Self :: Index { .. }", "index"), ("Self :: DotLookup { .. }", "dot")]
+
+
+def build_leaves(repo):
+    src = Source(repo)
+    log = []
+    f = src.fn(MATH, "try_constexpr_eval", "impl CompileTimeEvaluate for Expr")
+    fv = src.fn(VALUE, "try_constexpr_eval", "impl CompileTimeEvaluate for Value")
+    R = [Rule("R8", "maybe_constexpr_eval . as_ref ( ) . unwrap ( )", "opt_unwrap ( maybe_constexpr_eval . as_ref ( ) )", why="unwrap: a panic unless Some (R8)"),
+         Rule("R1", "expr . as_ref ( )", "expr", why="Box<Expr> deref"),
+         Rule("R1", "Value :: nil ( )", "value_nil ( )", why="Value::nil(): the literal nil (its body: `Self::MathExpr(Box::new(Expr::Nil))`)"),
+         Rule("R1", "Self :: Number", "Value :: Number"), Rule("R1", "Self :: Boolean", "Value :: Boolean"), Rule("R1", "Self :: String", "Value :: String"),
+         Rule("R1", "Self :: MathExpr", "Value :: MathExpr"), Rule("R1", "Self :: List", "Value :: List")]
+    try:
+        an = extract_match_arm(f["body"], "Self :: UnaryNot ( expr )")
+        anil = extract_match_arm(f["body"], "Self :: Nil")
+        aty = extract_match_arm(f["body"], "Self :: Typeof ( _ , repr )")
+        aval = extract_match_arm(f["body"], "Self :: Value ( val )")
+        imp = [(tag, extract_match_arm(f["body"], pat)) for pat, tag in IMPOSSIBLE_ARMS]
+    except Exception as e:
+        raise Undecided(f"Expr::try_constexpr_eval: arm not found: {e}")
+    # Value::nil is what the Nil arm builds: keep its body honest
+    fnil = src.fn(VALUE, "nil", "impl Value")
+    if text(fnil["body"]) != text(lex("Self :: MathExpr ( Box :: new ( Expr :: Nil ) )")):
+        raise Undecided("Value::nil is no longer `Self::MathExpr(Box::new(Expr::Nil))`: " + text(fnil["body"]))
+    bn = translate(an["body"], R, log, "try_constexpr_eval[UnaryNot]"); check_closed(bn, "UnaryNot")
+    bnil = translate(anil["body"], R, log, "try_constexpr_eval[Nil]"); check_closed(bnil, "Nil")
+    bty = translate(aty["body"], R, log, "try_constexpr_eval[Typeof]"); check_closed(bty, "Typeof")
+    bval = translate(aval["body"], R, log, "try_constexpr_eval[Value]"); check_closed(bval, "Value")
+    bv = translate(fv["body"], R + [Rule("R1", "match self {", "match self_ {", why="self -> explicit parameter"), Rule("R1", "Self :: $v", "Value :: $v", why="Self -> Value")], log, "Value::try_constexpr_eval"); check_closed(bv, "Value::try_constexpr_eval")
+    imps = ""
+    obls = []
+    for tag, arm in imp:
+        b = translate(arm["body"], R, log, f"try_constexpr_eval[{tag}]"); check_closed(b, tag)
+        imps += f"""
+//@ OBL C06.walk.not-constant.{tag}
+pub fn fold_{tag.lower()}_() -> (r: Result<ConstexprEvaluation, VErr>) ensures r == ok(ConstexprEvaluation::Impossible) {{
+{render(b, 1)}
+}}
+"""
+        obls.append(Obl(f"C06.walk.not-constant.{tag}", ["C06", "C15"], fn=f"Expr::try_constexpr_eval[{tag}]", desc=f"a `{tag}` expression (call / index / field access / self) is never a compile-time constant: it is evaluated at run time"))
+    gen = header(log, f"{MATH}: Expr::try_constexpr_eval, arms Value, UnaryNot, Nil, Typeof and the never-constant arms; {VALUE}: Value::try_constexpr_eval") + SPEC2 + f"""
+//@ OBL C06.walk.unary-not
+// `!e` folds exactly when e folds to a boolean literal, and then to the other boolean
+pub fn fold_unary_not(expr: &ExprV) -> (r: Result<ConstexprEvaluation, VErr>)
+    ensures
+        folded(expr) is Err ==> r is Err,
+        folded(expr) matches Ok(ConstexprEvaluation::Owned(Value::Boolean(b))) ==> r == ok(ConstexprEvaluation::Owned(Value::Boolean(!b))),
+        (folded(expr) is Ok && !(folded(expr)->Ok_0 is Owned && folded(expr)->Ok_0->Owned_0 is Boolean)) ==> r == ok(ConstexprEvaluation::Impossible),
+{{
+{render(bn, 1)}
+}}
+
+//@ OBL C06.walk.nil
+pub fn fold_nil() -> (r: Result<ConstexprEvaluation, VErr>) ensures r == ok(ConstexprEvaluation::Owned(nil_value())) {{
+{render(bnil, 1)}
+}}
+
+//@ OBL C06.walk.typeof
+// `typeof e` is the text the type checker computed for e (no run-time evaluation of e at all)
+pub fn fold_typeof(repr: &TextV) -> (r: Result<ConstexprEvaluation, VErr>) ensures r == ok(ConstexprEvaluation::Owned(Value::String(AstString::Plain(*repr)))) {{
+{render(bty, 1)}
+}}
+
+pub uninterp spec fn value_folded(v: &Value) -> Result<ConstexprEvaluation, VErr>;
+impl Value {{ #[verifier::external_body] pub fn try_constexpr_eval(&self) -> (r: Result<ConstexprEvaluation, VErr>) ensures r == value_folded(self) {{ unimplemented!() }} }}
+//@ OBL C06.walk.value
+pub fn fold_value_arm(val: &Value) -> (r: Result<ConstexprEvaluation, VErr>) ensures r == value_folded(val) {{
+{render(bval, 1)}
+}}
+
+//@ OBL C06.value.fold
+// a literal value: a boolean or a string folds to itself; a number, a parenthesised expression, a list to their own folds;
+// a function, a NAME and a map are never constants
+pub fn value_fold(self_: &Value) -> (r: Result<ConstexprEvaluation, VErr>)
+    ensures
+        self_ matches Value::Boolean(b) ==> r == ok(ConstexprEvaluation::Owned(Value::Boolean(*b))),
+        self_ matches Value::String(s) ==> r == ok(ConstexprEvaluation::Owned(Value::String(*s))),
+        self_ matches Value::Number(n) ==> r == num_folded(n),
+        self_ matches Value::MathExpr(e) ==> r == folded(&**e),
+        self_ matches Value::List(l) ==> r == list_folded(l),
+        (self_ is Function || self_ is Ident || self_ is Map) ==> r == ok(ConstexprEvaluation::Impossible),
+{{
+{render(bv, 1)}
+}}
+{imps}
+}} // verus!
+fn main() {{}}
+"""
+    obls = [Obl("C06.walk.unary-not", ["C06"], fn="Expr::try_constexpr_eval[UnaryNot]", desc="folding `!e`: exactly when e folds to a boolean literal, to the other boolean"),
+            Obl("C06.walk.nil", ["C06", "C12"], fn="Expr::try_constexpr_eval[Nil]", desc="`nil` folds to the nil literal"),
+            Obl("C06.walk.typeof", ["C06"], fn="Expr::try_constexpr_eval[Typeof]", desc="`typeof e` folds to the type text computed by the checker"),
+            Obl("C06.walk.value", ["C06"], fn="Expr::try_constexpr_eval[Value]", desc="a value expression folds to the fold of the value"),
+            Obl("C06.value.fold", ["C06", "C15"], fn="Value::try_constexpr_eval", desc="booleans and strings fold to themselves; numbers / parenthesised expressions / lists to their own folds; functions, names, maps are never constants")] + obls
+    return gen, obls, log
+
+
 UNITS = [VUnit("c06_walk", ["C06", "C15", "C12", "C16"], "the folding walk: unary minus and binary operators over folded operands", build)]
 UNITS[0].assumes = ["fragments: the two arms of Expr::try_constexpr_eval; the recursive fold of sub-expressions, Value::for_type / try_negate (C06.negate) and the literal arithmetic (C06.<op>.*) are abstract callees",
-                    "UnaryNot arm and Value / List folding are not covered"]
+                    "List folding: unit c16_list_fold"]
+UNITS.append(VUnit("c06_walk_leaves", ["C06", "C15", "C12"], "the folding walk: `!e`, nil, typeof, literal values, and what is never a constant", build_leaves))
+UNITS[1].assumes = ["the folds handed on to (expression, number, list) are abstract callees with their own obligations"]
